@@ -12,47 +12,82 @@ the struct and shares the array; the filter-less persisting update adopts the ca
 does. A *retained value* is a struct id; what the application reads from it is `readStruct`. Histories are lists of
 `Op` (`copy`, `upd remote persist items filterPartial filterDelete`) run by `run` from any state.
 
-Clauses and status on the code as written:
+**Which member is /repo.** /repo (after 36 `fix:` commits) is `Heap.head`; for this property only its flags
+`fastpathAdopts` (on) and the in-place behaviour of the engine (unchanged, codified by the repository's own tests)
+matter. With fixes/c04/04 (`Heap.patched`) `fastpathAdopts` is off. Theorems are stated for every member, with a
+hypothesis where a flag must be off; refutations are stated for `head` and `patched`.
 
-1. a data set obtained from a feature / delivered in an event never changes afterwards — REFUTED
-   (`c11_snapshot_stable_refuted`: selector, identifier-less and delete-elements updates write through the
-   snapshot's backing array, findings `inplace:copyToSelectedData`, `inplace:copyToAllData`,
-   `inplace:RemoveElementFromItem`; `c11_payload_stable_refuted`: the adopted value changes even under a merge-path
-   update, finding `fastpath-pointer-shared`). PROVED for every history, of any length, from any reachable state,
-   made of DataCopy, replace and merge-path updates (identifier-based partial updates and non-persisting
-   filter-less updates; local or remote; persisting or not; succeeding or failing; every member of the family):
-   `c11_snapshot_stable_partial`, `c11_datacopy_stable`.
-2. an update requested without persistence leaves the stored data as it was — REFUTED
+Clauses and status:
+
+1. a data set obtained from a feature / delivered in an event never changes afterwards — STILL REFUTED on `head`
+   and `patched` (`c11_snapshot_stable_refuted`: selector, identifier-less and delete-elements updates write through
+   the snapshot's backing array, findings `inplace:copyToSelectedData`, `inplace:copyToAllData`,
+   `inplace:RemoveElementFromItem`). REFUTED on `head` only: `c11_payload_stable_refuted` (the adopted value changes
+   even under a merge-path update, finding `fastpath-pointer-shared`, removed by fixes/c04/04). PROVED for every
+   history, of any length, from any reachable state, made of DataCopy, replace and merge-path updates
+   (identifier-based partial updates and non-persisting filter-less updates; local or remote; persisting or not;
+   succeeding or failing; every member): every retained value other than the adopted struct is stable
+   (`c11_snapshot_stable_partial`, `c11_datacopy_stable`); for members with `fastpathAdopts` off there is no
+   adopted struct: EVERY value ever handed in or out is stable across such histories
+   (`c11_every_handle_stable`).
+2. an update requested without persistence leaves the stored data as it was — STILL REFUTED
    (`c11_nonpersist_noop_refuted`, findings `nonpersist-modifies-store:*`); PROVED on the merge path
    (`c11_nonpersist_noop_partial`).
-3. an update reported as failed leaves the stored data as it was — REFUTED (`c11_failed_noop_refuted`, findings
-   `failed-modifies-store:*`); PROVED on the merge path (`c11_failed_noop_partial`).
+3. an update reported as failed leaves the stored data as it was — STILL REFUTED (`c11_failed_noop_refuted`,
+   findings `failed-modifies-store:*`); PROVED on the merge path (`c11_failed_noop_partial`).
 
 Not modelled here: the concurrent clause ("while the snapshot is being read or encoded") is a data race on the
-array elements and belongs to C17; the use-case helpers of `EntityLocal`, which modify a one-level copy of
-`NodeManagementUseCaseData` in place (monitored by the harness, findings `usecase-helper-inplace:*`).
-No repaired member exists for the in-place paths: the repository's own suite codifies them (DESIGN §9).
+array elements and belongs to C17; the use-case helpers of `EntityLocal`, which modified a one-level copy of
+`NodeManagementUseCaseData` in place (monitored by the harness, findings `usecase-helper-inplace:*`, removed by
+fixes/c04/03). No repaired member exists for the in-place paths: the repository's own suite codifies them.
 -/
 namespace Spine.Props.C11
 open Spine Spine.Heap
 
 /-! ### clause 1: a snapshot never changes -/
 
-/-- REFUTED on the code as written: a DataCopy snapshot (struct 1) of [changeable0, fixed1] reads differently after
-    a later selector update, after a later identifier-less update, and after a later delete with elements. -/
-theorem c11_snapshot_stable_refuted :
-    let h := (dataCopy (storeOf [changeable0, fixed1])).1
-    (dataCopy (storeOf [changeable0, fixed1])).2 = some 1 ∧ h.readStruct 1 = [changeable0, fixed1] ∧
-    (updateData aw lc h false true [[none, none, none, some 2, none]] (.data ⟨some (selId 0), none⟩) .nil).1.readStruct 1 ≠ h.readStruct 1 ∧
-    (updateData aw lc h false true [[none, none, none, some 2, none]] .nodata .nil).1.readStruct 1 ≠ h.readStruct 1 ∧
-    (updateData aw lc h false true [] .nil (.data ⟨none, some elValue⟩)).1.readStruct 1 ≠ h.readStruct 1 := by decide
+/-- STILL REFUTED on /repo (`head`) and on the patched member: a DataCopy snapshot of [changeable0, fixed1] reads
+    differently after a later selector update, after a later identifier-less update, and after a later delete with
+    elements. -/
+theorem c11_snapshot_stable_refuted : ∀ c ∈ [head, patched],
+    let h := (dataCopy (updateData c lc {} false true [changeable0, fixed1] .nil .nil).1).1
+    let snap := ((dataCopy (updateData c lc {} false true [changeable0, fixed1] .nil .nil).1).2).getD 0
+    h.readStruct snap = [changeable0, fixed1] ∧
+    (updateData c lc h false true [[none, none, none, some 2, none]] (.data ⟨some (selId 0), none⟩) .nil).1.readStruct snap ≠ h.readStruct snap ∧
+    (updateData c lc h false true [[none, none, none, some 2, none]] .nodata .nil).1.readStruct snap ≠ h.readStruct snap ∧
+    (updateData c lc h false true [] .nil (.data ⟨none, some elValue⟩)).1.readStruct snap ≠ h.readStruct snap := by
+  intro c hc
+  simp only [List.mem_cons, List.mem_nil_iff, or_false] at hc
+  rcases hc with rfl | rfl <;> decide
 
-/-- REFUTED on the code as written (finding `fastpath-pointer-shared`): the value handed to a filter-less update —
-    struct 0, which is also the payload of the data-change event — is adopted by the store and reads differently
-    after a later identifier-based partial update, although that update writes nothing in place. -/
+/-- REFUTED on /repo (`head`; finding `fastpath-pointer-shared`, removed by fixes/c04/04): the value handed to a
+    filter-less update — struct 0, which is also the payload of the data-change event — is adopted by the store and
+    reads differently after a later identifier-based partial update, although that update writes nothing in place. -/
 theorem c11_payload_stable_refuted :
-    let h := storeOf [changeable0, fixed1]
-    (updateData aw lc h false true [changeable2] .nodata .nil).1.readStruct 0 ≠ h.readStruct 0 := by decide
+    let h := (updateData head lc {} false true [changeable0, fixed1] .nil .nil).1
+    (updateData head lc h false true [changeable2] .nodata .nil).1.readStruct 0 ≠ h.readStruct 0 := by decide
+
+/-- PROVED for every member with `fastpathAdopts` off (`patched`): take ANY history `ops1` from the empty store
+    (all shapes, in-place paths included); every struct it handed in or out — inputs, event payloads, DataCopy
+    results, returned data — reads, across any later history of DataCopy, replace and merge-path updates, exactly what
+    it read at the end of `ops1`. No struct is exempt: the store never points to a struct the application holds. -/
+theorem c11_every_handle_stable (c : Cfg) (hc : c.fastpathAdopts = false) (sh : Shape) (ops1 ops2 : List Op)
+    (hsafe : ∀ op ∈ ops2, op.Safe c sh) :
+    ∀ x ∈ (runH c sh ({}, []) ops1).2,
+      (run c sh (run c sh {} ops1) ops2).readStruct x = (run c sh {} ops1).readStruct x := by
+  intro x hx
+  obtain ⟨hw, hlt, hst⟩ := private_run c hc sh ops1 _ private_empty
+  rw [runH_fst] at hw hlt hst
+  exact readStruct_ext (run_safe_ext c sh ops2 _ hsafe) hw x (hlt x hx) (fun e => hst x e hx)
+
+/-- non-vacuity: in `patched` the input of the filter-less update (struct 0) is a handle and stays stable under the
+    merge-path update that changes it on /repo -/
+example : patched.fastpathAdopts = false ∧
+    0 ∈ (runH patched lc ({}, []) [.upd false true [changeable0, fixed1] .nil .nil]).2 ∧
+    (run patched lc (run patched lc {} [.upd false true [changeable0, fixed1] .nil .nil]) [.upd false true [changeable2] .nodata .nil]).readStruct 0
+      = [changeable0, fixed1] ∧
+    (run patched lc (run patched lc {} [.upd false true [changeable0, fixed1] .nil .nil]) [.upd false true [changeable2] .nodata .nil]).readStore
+      = [changeable0, fixed1, changeable2] := by decide
 
 /-- PROVED (partial; every member of the family; histories of any length from any well-formed state): across
     DataCopy, replace and merge-path updates — `Op.Safe` — every retained value other than the struct the store
@@ -93,13 +128,16 @@ example : (∀ op ∈ exOps2, op.Safe aw lc) ∧ (run aw lc {} exOps1).store = s
 
 /-! ### clause 2: an update requested without persistence leaves the stored data as it was -/
 
-/-- REFUTED on the code as written: `UpdateData(persist = false)` with an identifier-less item, with a selector and
-    with delete elements succeeds and has modified the stored data. -/
-theorem c11_nonpersist_noop_refuted :
+/-- STILL REFUTED on /repo (`head`) and on the patched member: `UpdateData(persist = false)` with an
+    identifier-less item, with a selector and with delete elements succeeds and has modified the stored data. -/
+theorem c11_nonpersist_noop_refuted : ∀ c ∈ [head, patched],
     let h := storeOf [changeable0, fixed1]
-    (updateData aw lc h false false [[none, none, none, some 2, none]] .nil .nil).1.readStore ≠ h.readStore ∧
-    (updateData aw lc h false false [[none, none, none, some 2, none]] (.data ⟨some (selId 0), none⟩) .nil).1.readStore ≠ h.readStore ∧
-    (updateData aw lc h false false [] .nil (.data ⟨none, some elValue⟩)).1.readStore ≠ h.readStore := by decide
+    (updateData c lc h false false [[none, none, none, some 2, none]] .nil .nil).1.readStore ≠ h.readStore ∧
+    (updateData c lc h false false [[none, none, none, some 2, none]] (.data ⟨some (selId 0), none⟩) .nil).1.readStore ≠ h.readStore ∧
+    (updateData c lc h false false [] .nil (.data ⟨none, some elValue⟩)).1.readStore ≠ h.readStore := by
+  intro c hc
+  simp only [List.mem_cons, List.mem_nil_iff, or_false] at hc
+  rcases hc with rfl | rfl <;> decide
 
 /-- PROVED (partial; every member; local or remote): a non-persisting update on the merge path — no filter data,
     items with identifiers — leaves the stored data exactly as it was. -/
@@ -117,18 +155,22 @@ example : (updateData aw lc (storeOf [changeable0, fixed1]) false false [[some 0
 
 /-! ### clause 3: an update reported as failed leaves the stored data as it was -/
 
-/-- REFUTED on the code as written: updates reported as failed (remote writes meeting an unchangeable element) that
-    have modified the stored data — identifier-less, selector, delete elements. -/
-theorem c11_failed_noop_refuted :
-    (updateData aw lc (storeOf [changeable0, fixed1]) true true [[none, none, none, some 2, none]] .nodata .nil).2 = .done false 1 none ∧
-    (updateData aw lc (storeOf [changeable0, fixed1]) true true [[none, none, none, some 2, none]] .nodata .nil).1.readStore
+/-- STILL REFUTED on /repo (`head`) and on the patched member: updates reported as failed (remote writes meeting an
+    unchangeable element they address) that have modified the stored data — identifier-less, selector, delete
+    elements. -/
+theorem c11_failed_noop_refuted : ∀ c ∈ [head, patched],
+    (updateData c lc (storeOf [changeable0, fixed1]) true true [[none, none, none, some 2, none]] .nodata .nil).2 = .done false 1 none ∧
+    (updateData c lc (storeOf [changeable0, fixed1]) true true [[none, none, none, some 2, none]] .nodata .nil).1.readStore
       ≠ (storeOf [changeable0, fixed1]).readStore ∧
-    (updateData aw lc (storeOf [fixed1, changeable2]) true true [[none, none, none, some 2, none]] (.data ⟨some selAll, none⟩) .nil).2 = .done false 1 none ∧
-    (updateData aw lc (storeOf [fixed1, changeable2]) true true [[none, none, none, some 2, none]] (.data ⟨some selAll, none⟩) .nil).1.readStore
+    (updateData c lc (storeOf [fixed1, changeable2]) true true [[none, none, none, some 2, none]] (.data ⟨some selAll, none⟩) .nil).2 = .done false 1 none ∧
+    (updateData c lc (storeOf [fixed1, changeable2]) true true [[none, none, none, some 2, none]] (.data ⟨some selAll, none⟩) .nil).1.readStore
       ≠ (storeOf [fixed1, changeable2]).readStore ∧
-    (updateData aw lc (storeOf [changeable0, fixed1]) true true [] .nil (.data ⟨none, some elValue⟩)).2 = .done false 1 none ∧
-    (updateData aw lc (storeOf [changeable0, fixed1]) true true [] .nil (.data ⟨none, some elValue⟩)).1.readStore
-      ≠ (storeOf [changeable0, fixed1]).readStore := by decide
+    (updateData c lc (storeOf [changeable0, fixed1]) true true [] .nil (.data ⟨none, some elValue⟩)).2 = .done false 1 none ∧
+    (updateData c lc (storeOf [changeable0, fixed1]) true true [] .nil (.data ⟨none, some elValue⟩)).1.readStore
+      ≠ (storeOf [changeable0, fixed1]).readStore := by
+  intro c hc
+  simp only [List.mem_cons, List.mem_nil_iff, or_false] at hc
+  rcases hc with rfl | rfl <;> decide
 
 /-- PROVED (partial; every member): an update on the merge path that is reported as failed leaves the stored data
     exactly as it was. -/
@@ -139,9 +181,9 @@ theorem c11_failed_noop_partial (c : Cfg) (sh : Shape) (h : H) (hw : h.WF) (remo
     (updateData c sh h remote persist nw fp fd).1.readStore = h.readStore :=
   updateData_merge_noop c sh hw remote persist nw fp fd hp hd hnw hnf (Or.inr hfail)
 
-/-- non-vacuity: a failing merge-path update (the C04b write) -/
-example : (updateData aw lc (storeOf [changeable0, fixed1]) true true [[some 0, none, none, some 2, none]] .nodata .nil).2 = .done false 1 none ∧
-    fastPath aw ((storeOf [changeable0, fixed1]).allocValue [[some 0, none, none, some 2, none]]).1 true true .nodata .nil = false := by
+/-- non-vacuity: on /repo a merge-path write that addresses the unchangeable limit 1 fails -/
+example : (updateData head lc (storeOf [changeable0, fixed1]) true true [[some 1, none, none, some 0, none]] .nodata .nil).2 = .done false 1 none ∧
+    fastPath head ((storeOf [changeable0, fixed1]).allocValue [[some 1, none, none, some 0, none]]).1 true true .nodata .nil = false := by
   decide
 
 /-- every state a history reaches is well-formed (slices point into existing arrays, the store to an existing
